@@ -10,12 +10,16 @@ use vstd::prelude::*;
 verus! {
 //@prelude std_specs r32 attrmap pending
 
-pub enum SvgdxError { InvalidData(String), ReferenceError(ElRef), ParseError(String), DepthLimitExceeded(u32, u32), Other }
+pub enum SvgdxError { InvalidData(String), ReferenceError(ElRef), ParseError(String), DepthLimitExceeded(u32, u32), CircularRefError(String), Other }
 pub type Result<T> = core::result::Result<T, SvgdxError>;
 #[verifier::external_body] pub struct ClassList { _p: u8 }
 #[verifier::external_body] pub struct OrderIndex { _p: u8 }
 #[verifier::external_body] pub struct RngCell { _p: u8 }
 #[verifier::external_body] pub struct ElemTable { _p: u8 }
+impl ElemTable {
+    pub uninterp spec fn count(&self) -> nat;
+    #[verifier::external_body] pub fn len(&self) -> (r: usize) ensures r == self.count(), r < usize::MAX { unimplemented!() }     // (a table cannot hold usize::MAX entries)
+}
 #[verifier::external_body] pub struct Scope { _p: u8 }
 #[verifier::external_body] pub struct InputEvent { _p: u8 }
 #[verifier::external_body] pub struct ConfigRest { _p: u8 }
@@ -111,7 +115,7 @@ impl TransformerContext {
 //@       let dx = off(el.attrs@, "x"@)->Some_0; let dy = off(el.attrs@, "y"@)->Some_0;
 //@       r->Ok_0 is Some && bx(r->Ok_0->Some_0) == (val(b0.x1) + dx, val(b0.y1) + dy, val(b0.x2) + dx, val(b0.y2) + dy) })     @@C08.use.translated.api
 //@ decreases
-//@ - self.config.depth_limit + 1     @@C01.clip.terminates.api
+//@ - self.elem_map.count() + 2     @@C01.clip.terminates.api
 //@end
 
 //@item src/context.rs :: impl TransformerContext :: fn element_bbox_at_depth
@@ -132,7 +136,7 @@ impl TransformerContext {
 //@ - r is Ok && !(el.name@ == "use"@ || el.name@ == "reuse"@) && !el.attrs@.dom().contains("clip-path"@)
 //@     && target_of(*self, *el) is Some ==> own_bbox(target_of(*self, *el)->Some_0) == Some(r->Ok_0)     @@C08.plain.own_box
 //@ decreases
-//@ - self.config.depth_limit - depth     @@C01.clip.terminates
+//@ - self.elem_map.count() + 1 - depth     @@C01.clip.terminates
 //@end
 }
 
